@@ -261,6 +261,13 @@ def project(v, cst, bst):
       cmatch = [f for f in cf if f[0][0] == 'c' and f[0][1] == k] or [f for f in cf if f[0][0] == 'k' and key_matches(None, f[0], k)]
       items.append([k, project(x, cmatch[0][1], bmatch[0][1]) if cmatch else x])
     return ['d', items]
+  if cst[0] == 'union' and bst[0] == 'union':
+    tag = {'d': 'dict', 'l': 'list', 't': 'tuple'}.get(v[0])
+    for c in cst[1]:
+      for b in bst[1]:
+        if c[0] == b[0] == tag:
+          return project(v, c, b)
+    return v
   if v[0] == 'l' and cst[0] == 'list' and bst[0] == 'list':
     return ['l', [project(x, cst[1], bst[1]) for x in v[1]]]
   if v[0] == 't' and cst[0] == 'tuple' and bst[0] == 'tuple':
